@@ -16,7 +16,7 @@ CHECK = dict(
           'non-trivial = a spend was resolved from the DB (not the cache), an intermediate flush ran '
           'and an audit completed; distinct = distinct interleaving signature (sequence of mined '
           'heights, DB commits with the block-processor height at commit, sync points)'),
-    assumptions=['SimDB/SimFS stand in for LevelDB and the file system (validated by selftest '
+    assumptions=['a simulated plyvel module (under the real LevelDB class of electrumx.server.storage) and SimFS stand in for the LevelDB engine and the file system (validated by selftest '
                  'simdb_vs_plyvel)', 'the model bitcoind serves only valid chains',
                  'thread pre-emption only at storage seams (or source lines when line_p>0)',
                  'prefix collisions only between coinbase transactions'],
